@@ -33,12 +33,12 @@ ASSUMPTIONS = [
     "an InvalidStateError out of Gateway.connection_lost when the waiter was already completed in the same iteration belongs to C10.report, not C11",
 ]
 PROBES = ["completed_by_software_rstack", "nonsoftware_rstack_during_reset", "error_during_reset", "timeout_exact", "tie_at_deadline",
-          "rstack_before_request", "rstack_twice", "late_rstack_after_timeout", "loss_while_reset_pending", "loss_while_startup_pending",
-          "eof_while_pending", "retry_after_timeout", "joined_existing_reset", "counters_nonzero_before", "sched.batch", "sched.reorder"]
+          "rstack_before_request", "rstack_twice", "reply_duplicated_in_one_read", "late_rstack_after_timeout", "loss_while_reset_pending", "loss_while_startup_pending",
+          "eof_while_pending", "close_while_pending", "retry_after_timeout", "joined_existing_reset", "counters_nonzero_before", "sched.batch", "sched.reorder"]
 
 SW = R.RESET_SOFTWARE
-ARRIVALS = ("before", "now", "mid", "deadline", "after", "twice", "never")
-LOSS = (None, "before", "after_rst", "after_reply", "eof_after_rst")
+ARRIVALS = ("before", "now", "mid", "deadline", "after", "twice", "never", "double")
+LOSS = (None, "before", "after_rst", "after_reply", "eof_after_rst", "close_after_rst")
 
 
 class App:
@@ -75,7 +75,7 @@ def plan(tier):
     sweeps.append(("join", {"sched": False}))
     return {
         "sweeps": sweeps,
-        "exhaustive": "waiter {reset, startup} x reply {RSTACK, ERROR} x all 256 codes x arrival {before, at once, mid-window, exactly at the deadline, after, twice, never} x prior (tx, rx) counters, and connection loss/EOF at each step, benign schedule",
+        "exhaustive": "waiter {reset, startup} x reply {RSTACK, ERROR} x all 256 codes x arrival {before, at once, mid-window, exactly at the deadline, after, twice, twice in one read, never} x prior (tx, rx) counters, and connection loss/EOF at each step, benign schedule",
         "random": [("random", {}, 1)],
         "runs": 4000 if tier == "quick" else None,
         "budget_s": 45 if tier == "quick" else 900,
@@ -278,9 +278,13 @@ def run_cell(params, tape, detail=False):
     def frame(k, c):
         return R.f_rstack(c) if k == "rstack" else R.f_error(c)
 
-    def schedule(t_abs, k, c):
-        replies.append((t_abs, k, c))
-        rig.peer_send_at(frame(k, c), t_abs)
+    def schedule(t_abs, k, c, copies=1):
+        for _ in range(copies):
+            replies.append((t_abs, k, c))
+        if copies == 1:
+            rig.peer_send_at(frame(k, c), t_abs)
+        else:  # the line duplicated the frame: both copies arrive in one read
+            loop.external(t_abs, rig.peer_send_bytes, R.wire(frame(k, c)) * copies, 0.0, group="peer-emit")
 
     async def main():
         await cell.prior(tx, rx)
@@ -288,13 +292,13 @@ def run_cell(params, tape, detail=False):
             probe("counters_nonzero_before")
         t0 = loop.time() + 1.0  # the request instant
         offs = {"before": [-0.05], "now": [0.001], "mid": [limit_len / 2], "deadline": [limit_len], "after": [limit_len + 0.5],
-                "twice": [0.001, 0.3], "never": []}[arrival]
+                "twice": [0.001, 0.3], "never": [], "double": [0.001]}[arrival]
         for o in offs:
-            schedule(t0 + o, kind, code)
+            schedule(t0 + o, kind, code, 2 if arrival == "double" else 1)
         loss_at = None
         if loss == "before":
             loss_at = t0 - 0.01
-        elif loss in ("after_rst", "eof_after_rst"):
+        elif loss in ("after_rst", "eof_after_rst", "close_after_rst"):
             loss_at = t0 + 0.0005
         elif loss == "after_reply":
             loss_at = t0 + 0.002
@@ -302,6 +306,9 @@ def run_cell(params, tape, detail=False):
         if loss_at is not None:
             if loss == "eof_after_rst":
                 loop.external(loss_at, rig.transport.inject_eof, group="n2h")
+            elif loss == "close_after_rst":
+                # an orderly close from the host side (Gateway.close() by a concurrent disconnect): connection_lost(None)
+                loop.external(loss_at, cell.gw.close, group="n2h")
             else:
                 loop.external(loss_at, rig.transport.inject_lost, exc, group="n2h")
         await asyncio.sleep(t0 - loop.time())
@@ -328,12 +335,12 @@ def run_cell(params, tape, detail=False):
         viol.append(("C11.timeout", "sim-" + outcome, f"{tag}: simulation ended with {outcome}: {val!r}"))
     elif "t_req" in res:
         loss_at = st.get("loss_at")
-        if loss == "eof_after_rst":
-            # Gateway.eof_received turns EOF into a ConnectionResetError of its own
+        if loss in ("eof_after_rst", "close_after_rst"):
+            # Gateway.eof_received / connection_lost(None) make a ConnectionResetError of their own
             o = res.get("outcome")
             if o is not None and o[0] == "raised" and isinstance(o[1], ConnectionResetError):
                 res["loss_exc"] = o[1]
-            probe("eof_while_pending")
+            probe("eof_while_pending" if loss == "eof_after_rst" else "close_while_pending")
         if loss_at is not None and loss_at >= res["t_req"]:
             probe("loss_while_reset_pending" if waiter == "reset" else "loss_while_startup_pending")
         if loss == "before":
@@ -348,7 +355,8 @@ def run_cell(params, tape, detail=False):
                 continue
             expect_fail = (k == "rstack" and c != SW) or (k == "error" and c != SW)
             got = [x for x in app.failed if abs(x[0] - t) <= 1e-9 and x[1] == c]
-            if expect_fail and len(got) != 1:
+            ncopies = len([r for r in replies if r == (t, k, c)])
+            if expect_fail and len(got) != ncopies:
                 viol.append(("C11.only", "failure-not-reported", f"{tag}: {k}({c}) delivered at t={t:.4f} but enter_failed_state({c}) was called {len(got)} times (calls {app.failed})"))
             if expect_fail:
                 probe("nonsoftware_rstack_during_reset" if k == "rstack" else "error_during_reset")
@@ -356,8 +364,8 @@ def run_cell(params, tape, detail=False):
                 viol.append(("C11.only", "software-rstack-reported-as-failure", f"{tag}: RSTACK(software) at t={t:.4f} led to enter_failed_state"))
         if arrival == "before":
             probe("rstack_before_request")
-        if arrival == "twice":
-            probe("rstack_twice")
+        if arrival in ("twice", "double"):
+            probe("rstack_twice" if arrival == "twice" else "reply_duplicated_in_one_read")
         if arrival == "after":
             probe("late_rstack_after_timeout")
         if "zero_tx" in st:
@@ -369,6 +377,8 @@ def run_cell(params, tape, detail=False):
         if loss_at is not None and loss != "before" and outcome == "done":
             if loss == "eof_after_rst":
                 ok = len(app.lost) == 1 and isinstance(app.lost[0][1], ConnectionResetError)
+            elif loss == "close_after_rst":
+                ok = not app.lost  # a deliberate close is not reported to the application
             else:
                 ok = len(app.lost) == 1 and app.lost[0][1] is exc
             if not ok and not rig.loop.exceptions:
@@ -440,23 +450,37 @@ def run_chain(scenario, params, tape, detail=False):
                     code = 0x51
             t0 = loop.time() + 0.5
             offs = {"before": [-0.05], "now": [0.001], "mid": [limit_len / 2], "deadline": [limit_len], "after": [limit_len + 0.5],
-                    "twice": [0.001, 0.3], "never": []}[arr]
-            replies = [(t0 + o, kind, code) for o in offs]
+                    "twice": [0.001, 0.3], "never": [], "double": [0.001]}[arr]
+            replies = [(t0 + o, kind, code) for o in offs] * (2 if arr == "double" else 1)
             if kind != "rstack" or code != SW:
                 # a genuine answer as well, sometimes
                 if not arrivals and tape.draw(2, "then_sw"):
                     tt = t0 + (0.5, 2.0, 4.0, limit_len)[tape.draw(4, "then_at")]
                     replies.append((tt, "rstack", SW))
             replies.sort(key=lambda r: r[0])  # the pipe is FIFO: hand frames over in time order
-            for (tt, k, c) in replies:
+            if arr == "double":
+                fr0 = R.f_rstack(code) if kind == "rstack" else R.f_error(code)
+                loop.external(replies[0][0], rig.peer_send_bytes, R.wire(fr0) * 2, 0.0, group="peer-emit")
+                later = replies[2:]
+            else:
+                later = replies
+            for (tt, k, c) in later:
                 rig.peer_send_at(R.f_rstack(c) if k == "rstack" else R.f_error(c), tt)
             loss_at = None
             if not arrivals and tape.draw(6, "loss?") == 5:
                 loss_at = t0 + (0.0005, 0.002, 0.3, limit_len, limit_len + 0.1)[tape.draw(5, "loss_at")]
-                loop.external(loss_at, rig.transport.inject_lost, exc, group=None if tape.draw(2, "lossgrp") else "n2h")
+                grp = None if tape.draw(2, "lossgrp") else "n2h"
+                lk = tape.draw(3, "losskind")  # 0 read error, 1 EOF, 2 orderly close from the host side
+                if lk == 0:
+                    loop.external(loss_at, rig.transport.inject_lost, exc, group=grp)
+                elif lk == 1:
+                    loop.external(loss_at, rig.transport.inject_eof, group=grp)
+                else:
+                    loop.external(loss_at, cell.gw.close, group=grp)
+                own_exc = lk != 0
                 lost = True
             await asyncio.sleep(t0 - loop.time())
-            res = {"loss_exc": exc}
+            res = {"loss_exc": exc, "own_exc": loss_at is not None and own_exc}
             task = loop.create_task(request(cell, waiter, res))
             await asyncio.sleep(limit_len + 1.0)
             if i > 0 and results and results[-1][1].get("outcome", ("",))[0] == "raised":
@@ -479,8 +503,10 @@ def run_chain(scenario, params, tape, detail=False):
             if o is None:
                 viol.append(("C11.release", "pending", f"{tag}: waiter still pending"))
             continue
-        judge(cell, waiter, res, replies, loss_at, viol, probe, tag)
         o = res.get("outcome")
+        if res.get("own_exc") and o is not None and o[0] == "raised" and isinstance(o[1], ConnectionResetError):
+            res["loss_exc"] = o[1]  # EOF / orderly close: the Gateway makes the connection error itself
+        judge(cell, waiter, res, replies, loss_at, viol, probe, tag)
         descs.append((waiter, kind, code, arr, loss_at is not None, o and o[0], o and type(o[1]).__name__))
     losses = [r[3] for r in results if r[3] is not None]
     gl = min(losses) if losses else None
@@ -489,7 +515,7 @@ def run_chain(scenario, params, tape, detail=False):
             continue
         if (k == "rstack" and c != SW) or (k == "error" and c != SW):
             got = [x for x in app.failed if abs(x[0] - t) <= 1e-9 and x[1] == c]
-            if len(got) != 1:
+            if len(got) != all_replies.count((t, k, c)):
                 viol.append(("C11.only", "failure-not-reported", f"chain: {k}({c}) delivered at t={t:.4f}: enter_failed_state called {len(got)} times"))
     if rig.loop.exceptions:
         probes["connection_lost_raised"] = len(rig.loop.exceptions)
